@@ -308,7 +308,26 @@ theorem okEq_field (O : Oracles) (opts : DeserOpts) : ∀ (f : FieldDecl) (d : P
       | (simp [strictJson] at hj; done)
       | (apply OkEq.errors <;> intro z hz <;>
           simp [deserThen, liftThen, deser, lift, dMap, bindE, PyVal.isNone] at hz)
-  | .anyOf _, _, hex, _ => by simp [exactDecl] at hex
+  | .anyOf fs, d, hex, hj => by
+    simp only [exactDecl] at hex
+    match fs, hex with
+    | [a, b], hex =>
+      simp only [exactOpt, Bool.or_eq_true, Bool.and_eq_true] at hex
+      rcases hex with h | h
+      · have := isNoneDecl_eq a h.1.1; subst this
+        by_cases hn : d.isNone = true
+        · have : d = .none := by cases d <;> simp [PyVal.isNone] at hn <;> rfl
+          subst this
+          exact opt_okEq_none O opts _ b (Or.inl rfl) h.1.2 h.2
+        · exact opt_okEq_nonNone O opts _ b d (Or.inl rfl) h.1.2 h.2 (by simpa using hn)
+            (okEq_field O opts b d h.2 hj)
+      · have := isNoneDecl_eq b h.1.1; subst this
+        by_cases hn : d.isNone = true
+        · have : d = .none := by cases d <;> simp [PyVal.isNone] at hn <;> rfl
+          subst this
+          exact opt_okEq_none O opts _ a (Or.inr rfl) h.1.2 h.2
+        · exact opt_okEq_nonNone O opts _ a d (Or.inr rfl) h.1.2 h.2 (by simpa using hn)
+            (okEq_field O opts a d h.2 hj)
   | .oneOf _, _, hex, _ => by simp [exactDecl] at hex
   | .allOf _, _, hex, _ => by simp [exactDecl] at hex
   | .notF _, _, hex, _ => by simp [exactDecl] at hex
